@@ -117,6 +117,32 @@ def r1_best(repo, report):
               loc=repo.loc(rg), cases=n, why=(f"with {mism[0]['inputs']} the adapters are {mism[0]['code']}" if mism else ""))
 
 
+    # in the regrouped case every given adapter is still searched exactly once: each group appears once, either as an
+    # index over the group (more than one member) or member by member
+    bad = []
+    for r in rows:
+        if outcome(r) != "regrouped":
+            continue
+        base = vkey(r.exit[1])
+        adds = [e[2] for e in r.effects if e[0] == "call" and e[1] in (f"{base}.append", f"{base}.extend")]
+        have = {"PREFIX": [], "SUFFIX": [], "SINGLE": [base] if base == "SINGLE" else []}
+        for a_ in adds:
+            for g in ("PREFIX", "SUFFIX", "SINGLE"):
+                if f"({g})" in a_:
+                    have[g].append(a_)
+        pj, sj = r.valuation.get("sign:len(PREFIX)-1"), r.valuation.get("sign:len(SUFFIX)-1")
+        want = {"PREFIX": f"{base}.append(IndexedPrefixAdapters(PREFIX))" if pj == 1 else f"{base}.extend(PREFIX)",
+                "SUFFIX": f"{base}.append(IndexedSuffixAdapters(SUFFIX))" if sj == 1 else f"{base}.extend(SUFFIX)"}
+        for g in ("PREFIX", "SUFFIX"):
+            if have[g] != [want[g]]:
+                bad.append({"group": g, "members": {1: "more than one", 0: "one", -1: "none"}.get(pj if g == "PREFIX" else sj), "added": have[g], "expected": want[g]})
+        if base != "SINGLE" and len(have["SINGLE"]) != 1:
+            bad.append({"group": "SINGLE", "added": have["SINGLE"]})
+    report.ob("C09.R1", "AdapterCutter._regroup_into_indexed_adapters keeps every adapter", not bad, facts={"problems": bad[:3]},
+              expected="result = the other adapters + (index over the anchored 5' group if it has more than one member, else its members) + the same for the anchored 3' group", loc=repo.loc(rg), cases=len(rows),
+              why=(f"the {bad[0]['group']} group is added as {bad[0]['added']}, expected {bad[0].get('expected')}" if bad else ""))
+
+
 def r2_rounds(repo, report):
     cls = repo.cls("AdapterCutter")
     c, fn = repo.need_method("AdapterCutter", "match_and_trim")
